@@ -182,33 +182,37 @@ def run(chk, repo):
     cols = line.rstrip('\n').split('\t') if line else []
     ok = cols == ['{str(seq)}', '{peptide_anno.label}', '{subseq}', '{seg.to_line()}']
     chk.ob('C04.d', 'row = sequence, header, subsequence, segment columns', addp.where, ok, f"row template {cols}", key=addp.qual + '::row', fn=addp.qual)
-    # to_line columns on both ref branches
-    from sa.cfg import CFG as _C
-    tcfg = _C(tol.node)
-    counts = set()
-    orders = set()
-    for p in tcfg.paths(tcfg.entry, max_paths=100):
-        cols2 = []
-        for n in p.nodes():
-            if n.kind != 'stmt':
-                continue
-            a = n.ast
-            if isinstance(a, ast.Assign) and unparse(a.targets[0]) == 'fields' and isinstance(a.value, ast.List):
-                cols2 += [unparse(e) for e in a.value.elts]
-            elif isinstance(a, ast.AugAssign) and unparse(a.target) == 'fields' and isinstance(a.value, ast.List):
-                cols2 += [unparse(e) for e in a.value.elts]
-            elif isinstance(a, ast.Expr) and isinstance(a.value, ast.Call) and call_name(a.value) == 'append' and unparse(a.value.func.value) == 'fields':
-                cols2.append(unparse(a.value.args[0]))
-        counts.add(len(cols2))
-        orders.add(tuple('ref' if ('ref_' in c or c == "'.'" and i in (4, 5)) else c for i, c in enumerate(cols2)))
+    # to_line columns on every outcome (E9 string template of the returned line)
+    from sa.peval import PEval, Tmpl, show as pshow
+    try:
+        touts = [o for o in PEval(split_unknown=True).run(tol.node, {}) if o.kind == 'return']
+    except (ValueError, OverflowError):
+        touts = []
+    if not touts or not all(isinstance(o.value, Tmpl) for o in touts):
+        chk.undecided('C04.d', 'segment line', tol.where, 'PeptideSegment.to_line does not evaluate to tab-separated string templates')
+        touts = []
+    counts, orders = set(), set()
+    ok_cols = bool(touts)
+    for o in touts:
+        cs = o.value.split('\t')
+        counts.add(len(cs))
+        txt = [(pshow(c.single()) if c.single() is not None else c.text[2:-1]) for c in cs]
+        orders.add(tuple(txt))
+        if len(cs) != 9:
+            continue
+        has_ref = o.assumed.get('self.ref')
+        want_ref = (lambda t, a: t.startswith('str(') and f'self.ref.{a}' in t and f'self.ref.{a}_offset' in t) if has_ref else (lambda t, a: t == '.')
+        var = txt[8]
+        var_ok = var in ("self.variant_id if self.variant_id else '.'", "self.variant_id or '.'") or \
+            (var == 'self.variant_id' and o.assumed.get('self.variant_id') is True) or (var == '.' and o.assumed.get('self.variant_id') is False)
+        ok_cols = ok_cols and txt[:4] == ['str(self.query.start)', 'str(self.query.end)', "self.feature_type or '.'", "self.feature_id or '.'"] \
+            and has_ref is not None and want_ref(txt[4], 'start') and want_ref(txt[5], 'end') \
+            and txt[6:8] == ['str(self.query.start_offset)', 'str(self.query.end_offset)'] and var_ok
     ok = counts == {len(hdr) - 3}
     chk.ob('C04.d', f"segment line has {len(hdr) - 3} columns on every path (header has {len(hdr)})", tol.where, ok,
            f"segment column counts {counts}", key=tol.qual + '::column-count', fn=tol.qual)
-    first = {o[:4] for o in orders}
-    ok = first == {('str(self.query.start)', 'str(self.query.end)', "self.feature_type or '.'", "self.feature_id or '.'")} and \
-        hdr[3:7] == ['start', 'end', 'feature_type', 'feature_id'] and hdr[7:9] == ['ref_start', 'ref_end'] and hdr[9:] == ['start_offset', 'end_offset', 'variant']
-    tails = {o[6:] for o in orders}
-    ok = ok and all(t[:2] == ('str(self.query.start_offset)', 'str(self.query.end_offset)') and t[2] in ('self.variant_id', "'.'") for t in tails)
+    ok = ok_cols and hdr[3:7] == ['start', 'end', 'feature_type', 'feature_id'] and hdr[7:9] == ['ref_start', 'ref_end'] \
+        and hdr[9:] == ['start_offset', 'end_offset', 'variant']
     chk.ob('C04.d', 'segment columns follow the header order (start,end,feature_type,feature_id,ref_start,ref_end,start_offset,end_offset,variant)', tol.where, ok,
            f"segment column orders {orders}", key=tol.qual + '::column-order', fn=tol.qual)
     sub = [n for n in ast.walk(addp.node) if isinstance(n, ast.Assign) and unparse(n.targets[0]) == 'subseq']
